@@ -55,6 +55,7 @@ type Exec struct {
 	barrier int // >0: stores to objects with Epoch < barrier are violations (C14)
 	lazy    int // >0: skip feasibility checks at branches
 	force   bool // check feasibility at the next branch even in lazy mode
+	sumBase int  // length of the path condition when the outermost summary began
 
 	symSeq    map[string]int
 	inputs    []InputVar
@@ -150,14 +151,24 @@ func (e *Exec) knownUnsat(cond *Term) bool {
 }
 
 func (e *Exec) storeUnsat(cond *Term) {
-	if e.shared == nil || len(e.shared.unsat[cond.ID]) >= 8 {
+	e.storeUnsatUnder(cond, e.pc)
+}
+
+// storeUnsatUnder records "pc ∧ cond is unsat" (most recent 8 path conditions
+// per condition are kept).
+func (e *Exec) storeUnsatUnder(cond *Term, pc []*Term) {
+	if e.shared == nil {
 		return
 	}
-	ids := make([]int, len(e.pc))
-	for i, p := range e.pc {
+	ids := make([]int, len(pc))
+	for i, p := range pc {
 		ids[i] = p.ID
 	}
-	e.shared.unsat[cond.ID] = append(e.shared.unsat[cond.ID], ids)
+	ents := e.shared.unsat[cond.ID]
+	if len(ents) >= 8 {
+		ents = ents[1:]
+	}
+	e.shared.unsat[cond.ID] = append(ents, ids)
 }
 
 // feasible decides whether pc ∧ cond is satisfiable, using syntactic checks,
@@ -558,7 +569,17 @@ func (e *Exec) obligation(bad *Term, kind, label string) {
 	}
 	if e.sumEp > 0 {
 		// inside a summary the same obligation recurs on every sub-path under
-		// the same outer path condition: decide it eagerly and cache unsat.
+		// the same outer path condition: first try to discharge it under the
+		// outer path condition alone (then it holds on every sub-path and the
+		// cache entry is reusable), else decide it eagerly on this sub-path.
+		if e.sumBase >= 0 && e.sumBase <= len(e.pc) {
+			outer := e.pc[:e.sumBase]
+			if r0, _ := e.sol.CheckInc(outer, []*Term{bad}, false); r0 == Unsat {
+				e.storeUnsatUnder(bad, outer)
+				e.addPC(e.ctx.Not(bad))
+				return
+			}
+		}
 		r, m := e.sat(bad)
 		switch r {
 		case Unsat:
@@ -1169,6 +1190,10 @@ func (e *Exec) describe(v Value) string {
 // older heap or returned non-scalars); the caller then runs it inline.
 func (e *Exec) summarize(fn *ssa.Function, args []Value, env []Value) (res Value, ok bool) {
 	savedSrc, savedPC, savedSum, savedViol := e.src, len(e.pc), e.sumEp, len(e.viol)
+	outermost := e.sumEp == 0
+	if outermost {
+		e.sumBase = savedPC
+	}
 	savedFrames := len(e.frames)
 	savedDec := e.decisions
 	savedPend := len(e.pending)
@@ -1183,6 +1208,9 @@ func (e *Exec) summarize(fn *ssa.Function, args []Value, env []Value) (res Value
 	work := [][]int64{{}}
 	restore := func() {
 		e.src, e.sumEp = savedSrc, savedSum
+		if outermost {
+			e.sumBase = -1
+		}
 		e.pc = e.pc[:savedPC]
 		e.frames = e.frames[:savedFrames]
 		e.lazy--
